@@ -1,5 +1,6 @@
 import GBProofs.FormulaProofs
 import GBProofs.ScreenLaws
+import GBProofs.ScreenArray
 /-!
 # C20 — overlap screening
 `ScreenLaws.lean`: `screened_iff_exp` (the documented cutoff ⇔ `exp(-αβ/(α+β) d²) < tol`),
@@ -12,5 +13,14 @@ namespace GB.C20
 theorem monotone (αa αb d tol tol' : ℝ) (ha : 0 < αa) (hb : 0 < αb) (ht' : 0 < tol') (h : tol' ≤ tol)
     (hs : screened αa αb d tol') : screened αa αb d tol :=
   screened_mono αa αb d tol tol' ha hb ht' h hs
+
+/-! `ScreenArray.lean`: the property for the **assembled overlap array of a whole basis**: `pairScreened` (documented cutoff from the tolerance
+and the smallest exponent of each shell), `screened_array_entry` (an entry is 0 if its shell pair is screened and the unscreened entry
+otherwise — contraction norms and Cartesian-to-spherical matrices included), `screened_array_none` (no tolerance: no screening),
+`screened_array_mono` (lowering the tolerance never removes more), `screened_array_symm`, and `screened_array_conservative` (every removed
+element between s-type shells, any contraction pattern, is below `tol · Σ|c̃| · Σ|c̃′|`), `screened_array_error`. -/
+alias screened_array_follows_cutoff := screened_array_entry
+alias screened_array_monotone := screened_array_mono
+alias screened_array_conservative_for_s := screened_array_conservative
 
 end GB.C20
